@@ -7,6 +7,7 @@ the simulated air interface with a man in the middle that replaces one radio fra
 SNEP fragment by garbage; callbacks, connect() results, thread deaths and stalls are recorded and the life
 cycle is validated by TLC against Robust (Trace_Robust).
 """
+import subprocess
 import os, sys, json, random, struct, threading, traceback, time, collections
 import multiprocessing as mp
 from vlib import tlc, check
@@ -901,11 +902,31 @@ def run(tier, seed):
     ck.assume("the man in the middle replaces exactly one frame / PDU / fragment per run; the other side is a real nfcpy stack",
               "llcp-sec is off (no OpenSSL in this sandbox), so DPS PDUs and encrypted payloads are outside every run",
               "Robust!Allowed is written from the docstrings and the property statement")
+    # ---- part C: peer behaviours that are well-formed PDU by PDU but break the protocol's bookkeeping
+    # a service discovery answer that arrives twice (same transaction id): every later resolve() must still return
+    hist = os.path.join(os.path.dirname(os.path.abspath(__file__)), "c07_repro_dupsdres.py")
+    from vlib import SRC as _src
+    pr = subprocess.run(["timeout", "60", sys.executable, hist, _src], stdout=subprocess.PIPE, stderr=subprocess.STDOUT, text=True)
+    if pr.returncode == 1 and "DEFECT PRESENT" in pr.stdout:
+        ck.violation("C:sdp:answer-repeated-by-the-peer:later-resolve-blocks-forever",
+                     "after one SDRES was received twice two concurrent lookups shared a transaction id and the resolver of "
+                     "the first never returned although the peer answered it: %s" % pr.stdout.strip()[-400:],
+                     replay=dict(kind="history", name="dupsdres"))
+    elif pr.returncode != 0:
+        raise tlc.TLCError("history dupsdres could not be executed: rc=%s %s" % (pr.returncode, pr.stdout[-400:]))
+    ck.cover(histories_executed=["dupsdres: SDRES repeated by the peer, then two concurrent lookups drawing the last pool entry"])
     return ck.finish()
 
 
 def replay(rep, args):
     r = rep["replay"]
+    if r.get("kind") == "history":
+        from vlib import SRC as _src
+        pr = subprocess.run(["timeout", "60", sys.executable, os.path.join(os.path.dirname(os.path.abspath(__file__)),
+                                                                            "c07_repro_%s.py" % r["name"]), _src])
+        if pr.returncode == 1:
+            print("VIOLATION property=%s replay=%s" % (PID, args.replay))
+        return 1 if pr.returncode == 1 else (0 if pr.returncode == 0 else 2)
     if r.get("part") == "A":
         data = bytes.fromhex(r["hex"])
         print("entry", r["entry"], "bytes", r["hex"][:80])
